@@ -643,6 +643,9 @@ func TestMacatArgs(t *testing.T) {
 		add("reply", []mtok{tk("proto", p, 0), addrFor(p), tk("data", "", 0), rt}, long)
 		add("reply", []mtok{tk("file", "ok", 0), tk("count", "", 1), tk("proto", p, 0), addrFor(p), rt}, long)
 		add("reply-forever", []mtok{tk("proto", p, 0), addrFor(p), tk("data", "", 0)}, short+time.Second)
+		// an empty payload is a payload: every request is answered, with an empty message
+		add("reply-empty", []mtok{tk("proto", p, 0), addrFor(p), tk("data", "empty", 0), rt}, long)
+		add("reply-empty", []mtok{tk("file", "empty", 0), tk("proto", p, 0), addrFor(p), rt}, long)
 	}
 	// 3. refusals: every token sequence of the alphabet up to a length, and single faults injected into good lines
 	alpha := []mtok{tk("proto", "push", 0), tk("proto", "pull", 0), tk("proto", "req", 0), tk("proto", "sub", 0), tk("bind", "ok", 0),
